@@ -144,6 +144,7 @@ class Violation(Exception):
 class State:
     def __init__(self):
         self.regs, self.objs, self.pc, self.log, self.nobj = {}, {}, [], [], 0
+        self.frames, self.fname = [], None        # call stack of the functions of the module that are executed (not stubbed)
 
     def new_obj(self, name, size, init=None):
         self.nobj += 1
@@ -154,6 +155,7 @@ class State:
     def clone(self):
         s = State()
         s.regs, s.pc, s.log, s.nobj = dict(self.regs), list(self.pc), list(self.log), self.nobj
+        s.fname, s.frames = self.fname, [(fn, dict(rg), b, i, pv, d) for fn, rg, b, i, pv, d in self.frames]
         s.objs = {k: copy.copy(o) for k, o in self.objs.items()}
         for o in s.objs.values():
             o.cells, o.bytes = dict(o.cells), dict(o.bytes)
@@ -167,6 +169,8 @@ class Interp:
         self.solver_s = 0.0
         self.findings = []
         self.index_cap = 64
+        self.max_paths, self.path_bound_hit = None, False
+        self.paths_after_finding, self._first_finding_at = None, None      # stop exploring this many paths after the first finding
 
     def sat(self, st, *extra):
         s = z3.Solver()
@@ -338,17 +342,30 @@ class Interp:
         return blocks
 
     def run(self, fname, args, st=None, max_steps=400000):
-        blocks = self.blocks_of(fname)
         st = st or State()
+        st.fname = fname
+        self._blocks = {}
         for i, a in enumerate(args):
             st.regs[f"%{i}"] = a
         work = [(st, "entry", 0, None)]
         results = []
         self.max_steps = max_steps
         while work:
+            if self.findings and self.paths_after_finding is not None:
+                if self._first_finding_at is None:
+                    self._first_finding_at = self.paths
+                if self.paths - self._first_finding_at >= self.paths_after_finding:
+                    self.path_bound_hit = True         # enough: what was found is reported (and replayed); the rest is not explored
+                    break
+            if self.max_paths is not None and self.paths >= self.max_paths:
+                # path bound: with findings in hand they are reported (and replayed); without any the run cannot vouch for anything
+                if not self.findings:
+                    raise RuntimeError(f"cir path bound exceeded ({self.max_paths} paths of {fname}) before any obligation failed")
+                self.path_bound_hit = True
+                break
             st, blk, idx, prev = work.pop()
             try:
-                r = self.exec_path(st, blocks, blk, idx, prev, work, fname)
+                r = self.exec_path(st, None, blk, idx, prev, work, fname)
                 if r is not None:
                     results.append((st, r))
                     self.paths += 1
@@ -358,8 +375,14 @@ class Interp:
                 self.paths += 1
         return results
 
+    def _blocks_for(self, fname):
+        if fname not in self._blocks:
+            self._blocks[fname] = self.blocks_of(fname)
+        return self._blocks[fname]
+
     def exec_path(self, st, blocks, blk, idx, prev, work, fname):
         local_steps = 0
+        blocks = self._blocks_for(st.fname)
         while True:
             ins = blocks[blk][idx]
             idx += 1
@@ -522,7 +545,13 @@ class Interp:
                 prev, blk, idx = blk, nxt, 0
             elif op == "ret":
                 m = re.match(r"ret (.+?) (\S+)$", rhs)
-                return self.val(st, m.group(1), m.group(2)) if m else "void"
+                rv = self.val(st, m.group(1), m.group(2)) if m else "void"
+                if not st.frames:
+                    return rv
+                st.fname, st.regs, blk, idx, prev, rdst = st.frames.pop()
+                blocks = self._blocks_for(st.fname)
+                if rdst:
+                    st.regs[rdst] = rv
             elif op in ("call", "tail"):
                 m = re.match(r"(?:tail )?call (.+?) (?:\(.*?\) )?(@[\w.]+)\((.*)\)", rhs)
                 fn, argstr = m.group(2), m.group(3)
@@ -533,6 +562,14 @@ class Interp:
                     aty, atok = mm.groups()
                     args.append(st.regs[atok] if atok.startswith("%") else self.val(st, aty, atok))
                 if fn not in self.stubs:
+                    if fn in self.mod.funcs and len(st.frames) < 8:
+                        # a function defined in the same translation unit: executed, not trusted
+                        st.frames.append((st.fname, st.regs, blk, idx, prev, dst))
+                        st.fname, st.regs = fn, {f"%{i}": a for i, a in enumerate(args)}
+                        blocks = self._blocks_for(fn)
+                        self.called = getattr(self, "called", set()) | {fn}
+                        blk, idx, prev = "entry", 0, None
+                        continue
                     raise NotImplementedError("call to " + fn + " has no stub")
                 r = self.stubs[fn](self, st, work, (blk, idx, prev, dst), *args)
                 if dst:
